@@ -124,10 +124,14 @@ func (cln *Client) Connect(uri string, msg *message.ConnectMessage) (err error) 
 	}
 	cln.svc.setConnect(msg)
 
+	// The topic tree of this connection. The name it is registered under is its
+	// own: several clients of one process may use the same client identifier
+	// (towards different servers).
 	p := topics.NewMemProvider()
-	topics.Register(cln.svc.sess.ID(), p)
+	cln.svc.topicsName = fmt.Sprintf("%s/%d", cln.svc.sess.ID(), cln.svc.id)
+	topics.Register(cln.svc.topicsName, p)
 
-	cln.svc.topicsMgr, err = topics.NewManager(cln.svc.sess.ID())
+	cln.svc.topicsMgr, err = topics.NewManager(cln.svc.topicsName)
 	if err != nil {
 		return err
 	}
@@ -208,10 +212,14 @@ func (cln *Client) ConnectTLS(uri string, msg *message.ConnectMessage, cfg *tls.
 	}
 	cln.svc.setConnect(msg)
 
+	// The topic tree of this connection. The name it is registered under is its
+	// own: several clients of one process may use the same client identifier
+	// (towards different servers).
 	p := topics.NewMemProvider()
-	topics.Register(cln.svc.sess.ID(), p)
+	cln.svc.topicsName = fmt.Sprintf("%s/%d", cln.svc.sess.ID(), cln.svc.id)
+	topics.Register(cln.svc.topicsName, p)
 
-	cln.svc.topicsMgr, err = topics.NewManager(cln.svc.sess.ID())
+	cln.svc.topicsMgr, err = topics.NewManager(cln.svc.topicsName)
 	if err != nil {
 		return err
 	}
